@@ -29,7 +29,9 @@ Theorem source_is_model :
   (forall l1 l2 termpb ds, gen_cxOnePointLeafBiased l1 l2 termpb ds = m_cxOnePointLeafBiased l1 l2 termpb ds) /\
   (forall key maxv func args ds, gen_staticLimit key maxv func args ds = m_staticLimit key maxv func args ds).
 Proof.
-  repeat split; intros.
+  (* [apply conj], not [split]: a conjunct about a refused function is an equation that holds by computation, which
+     [split] would close by itself and shift the bullets *)
+  repeat apply conj; intros.
   - apply gen_root_eq.
   - apply gen_searchSubtree_eq.
   - apply gen_height_eq.
@@ -98,15 +100,13 @@ Qed.
 
 Lemma gen_run_op_eq ps oc inputs ds : gen_run_op ps oc inputs ds = run_op ps oc inputs ds.
 Proof.
+  (* no bullets: a case about a refused function (a placeholder for the model) is closed by computation earlier *)
   unfold gen_run_op, run_op. destruct oc; try reflexivity;
-    destruct inputs as [|a [|b [|c r]]]; try reflexivity; unfold bind.
-  - now rewrite gen_cxOnePoint_eq.
-  - now rewrite gen_cxOnePointLeafBiased_eq.
-  - rewrite gen_mutUniform_eq. rewrite (m_mutUniform_model a _ g); [reflexivity|]. intros. apply gen_gen_expr_eq.
-  - now rewrite gen_mutNodeReplacement_eq.
-  - now rewrite gen_mutEphemeral_eq.
-  - now rewrite gen_mutInsert_eq.
-  - now rewrite gen_mutShrink_eq.
+    destruct inputs as [|a [|b [|c r]]]; try reflexivity; unfold bind;
+    rewrite ?gen_cxOnePoint_eq, ?gen_cxOnePointLeafBiased_eq, ?gen_mutNodeReplacement_eq, ?gen_mutEphemeral_eq,
+            ?gen_mutInsert_eq, ?gen_mutShrink_eq, ?gen_mutUniform_eq;
+    try reflexivity.
+  all: rewrite (m_mutUniform_model a _ g); [reflexivity|]; intros; apply gen_gen_expr_eq.
 Qed.
 
 Lemma limit_fold_k_model k maxv (key : list node -> M Z) keep :
